@@ -8,7 +8,9 @@ use crate::refmodel::{self, RunFail};
 use crate::report::{self, Report, Violation};
 use serde_json::json;
 
-const IDENTS: [(&str, bool); 14] = [
+const IDENTS: [(&str, bool); 16] = [
+    ("_id", false),
+    ("_created_at", false),
     ("user_id", false),
     ("api_url", false),
     ("name", false),
